@@ -97,6 +97,7 @@ def plan(ctx):
         ('shard_random', [('rnd', ctx.pick(1200, 40000), i) for i in range(16)]),
         ('shard_mutations', [('mut', ctx.pick(5, 40), i) for i in range(16)]),
         ('shard_chains', [('chain', ctx.pick(25, 600), i) for i in range(16)]),
+        ('shard_runs', [('runs', i, 16, ctx.pick((1025,), RUN_LENGTHS)) for i in range(16)]),
     ]
     return stages
 
@@ -240,5 +241,41 @@ def shard_chains(ctx, shard):
     return res
 
 
+RUN_SYMBOLS = [a for a in T.A_CAT if a not in ('{',)] + ['\\x', '{}', '[]', '$a$', '%c\n', '\\\\', '\\item ', '\\x{a}', '\\x ',
+                                                          '\\(a\\)', 'a b\n\n', '}', '\\end{e}', '\\]', '\x00a', 'a\x7f']
+RUN_WRAPS = ['%s', 'a%sb', '{%s}', '\\x%s', '\\begin{itemize}\\item %s\\end{itemize}', '$%s$', '\\begin{e}%s']
+RUN_LENGTHS = (257, 1025, 1500, 3000)
+
+
+def shard_runs(ctx, shard):
+    """One symbol repeated hundreds to thousands of times, flat (no nesting): ends in a tree or a documented error."""
+    _, idx, nshard, lengths = shard
+    H.import_repo()
+    res = H.Result()
+    seen = set()
+    k = 0
+    for sym in RUN_SYMBOLS:
+        for n in lengths:
+            for wrap in RUN_WRAPS:
+                k += 1
+                if k % nshard != idx:
+                    continue
+                s = wrap % (sym * n)
+                try:
+                    outs = check_string(s, 'long-run')
+                except H.Violation as v:
+                    v.case['src'] = s if len(s) < 400 else s[:200] + '...'
+                    v.case['run'] = {'symbol': sym, 'times': n, 'wrap': wrap}
+                    _record(res, seen, v)
+                    continue
+                res.case((sym, n, wrap), True, sample={'symbol': sym, 'times': n, 'wrap': wrap, 'outcomes': outs},
+                         classes=['run-length>=%d' % n, 'out:%s/%s' % tuple(outs)])
+    return res
+
+
 def replay(case):
+    if case.get('run'):
+        r = case['run']
+        check_string(r['wrap'] % (r['symbol'] * int(r['times'])), case.get('sub', 'replay'))
+        return
     check_string(case['src'], case.get('sub', 'replay'))
